@@ -70,7 +70,10 @@ func (e *Engine) ftypeMembers() map[*ssa.Function]*Contract {
 func (e *Engine) allUnits() []*Unit {
 	var us []*Unit
 	seen := map[*ssa.Function]*Unit{}
-	for fn := range e.contractOf {
+	for fn, c := range e.contractOf {
+		if c.Attrs["trusted"] {
+			continue // contract assumed at call sites, body not verified (listed as an assumption by its callers)
+		}
 		u := e.newUnit(fn)
 		seen[fn] = u
 		us = append(us, u)
@@ -120,6 +123,8 @@ func main() {
 		os.Exit(cmdCheck(eng, os.Args[2:]))
 	case "sweep":
 		cmdSweep(eng, os.Args[2:])
+	case "mapranges":
+		cmdMapRanges(eng)
 	default:
 		fmt.Fprintln(os.Stderr, "unknown command")
 		os.Exit(2)
@@ -310,5 +315,15 @@ func cmdSweep(eng *Engine, pats []string) {
 		for _, f := range fails {
 			fmt.Printf("      %s\n", f)
 		}
+	}
+}
+
+func cmdMapRanges(eng *Engine) {
+	for _, r := range eng.mapOrderChecks("C06") {
+		st := "ok  "
+		if !r.OK {
+			st = "FLAG"
+		}
+		fmt.Printf("%s %s\n     %s\n", st, r.Name, strings.ReplaceAll(r.Detail, "\n", "\n     "))
 	}
 }
